@@ -651,7 +651,7 @@ def campaign(ctx, a, builds, root, exclusions, notes):
     open(dict_path, "w").write(S.fuzz_dictionary())
 
     nfz = 0 if a.no_fuzz else {"quick": 4, "thorough": 8}[tier]
-    runs = {"quick": 15000, "thorough": 40000000}[tier]        # per fuzz worker
+    runs = {"quick": 12000, "thorough": 40000000}[tier]        # per fuzz worker
     max_time = {"quick": 70, "thorough": 900}[tier]
     nw = max(1, min(a.workers, 16))
     with ThreadPoolExecutor(max_workers=nw + nfz) as ex:
